@@ -736,4 +736,16 @@ theorem assoc_roundtrip (d rest : Bytes) (hd : d.length < 65536) :
     rw [← List.drop_drop, List.drop_left' rfl]; rfl
   simp [this]
 
+/-! ## A toy AEAD for the non-vacuity examples of `Mieru.Props.C09` -/
+
+/-- a toy AEAD: tag = first 16 bytes of (key ‖ nonce ‖ zeros) -/
+def toyTag (k n : Bytes) : Bytes := (k ++ n ++ List.replicate 16 0).take 16
+def toyAead : AeadFns where
+  sealF k n p := p ++ toyTag k n
+  openF k n c := if c.length ≥ 16 ∧ c.drop (c.length - 16) = toyTag k n then some (c.take (c.length - 16)) else none
+
+theorem toyTag_len (k n : Bytes) : (toyTag k n).length = 16 := by
+  simp [toyTag]; omega
+
+
 end Mieru.Spec
